@@ -270,6 +270,10 @@ class Model:
                 self.handler_calls.append(e.args[0] if isinstance(e, Boom) and e.args else type(e).__name__)
                 mode, rid = st['on-error']
                 omitted = 'omit' in st or getattr(node, 'model_omit', False)
+                if 'onerror-omit-reevaluated' in self.quirks and st.get('omit') is not None \
+                        and not getattr(node, 'model_omit', False):
+                    # reading B of the statement: tal:omit-tag still decides about the fallback's tags
+                    omitted = self.truth(self.f(st['omit']))
                 if not omitted:
                     self.emit('<%s%s>' % (node.tag, ''.join(' %s="%s"' % kv for kv in node.statics)))
                 v = self.f(rid)
@@ -457,8 +461,14 @@ def run_real(src, table, cfg=None, extra=None, may_raise=False):
         return build_value(r, real=True)
     cfg = dict(cfg or {})
 
-    def handler(exc):
+    def record(exc):
         handled.append(exc.args[0] if isinstance(exc, Boom) and exc.args else type(exc).__name__)
+
+    class CollectingHandler(list):
+        # a callable that is falsy while empty (an error collector): "is it configured" must be an identity test
+        def __call__(self, exc):
+            record(exc)
+    handler = record if len(src) % 2 else CollectingHandler()
     try:
         t = PageTemplate(src, on_error_handler=handler, **cfg)
     except Exception as e:
